@@ -16,9 +16,15 @@ OUT = os.path.join(os.path.dirname(os.path.dirname(os.path.abspath(__file__))),
                    'out')
 
 
+_SEED = [0]
+
+
 def _solver(timeout_ms):
     s = z3.Solver()
     s.set('timeout', timeout_ms)
+    if _SEED[0]:
+        # a retry: z3's divergence on a valid query usually depends on the seed
+        s.set('random_seed', _SEED[0])
     return s
 
 
@@ -63,6 +69,10 @@ def _check(sv, budget_s, watch=None):
                     break
             except Exception:
                 break
+    if interrupted:
+        # whatever a check reports after it has been interrupted is not trusted (a
+        # `sat` for a valid lemma obligation was seen exactly in this situation)
+        return z3.unknown
     return box[0] if box else z3.unknown
 
 
